@@ -852,6 +852,9 @@ def conn_second_session(rng, ending="drop"):
     if ending == "drop":
         dev2["drop_at"] = round(rng.uniform(0.05, 3.0), 3)
         ops += [["sleep", 6.0], ["connected"], ["put", "MAIN", "LATE", "1"]]
+    elif ending == "idle":
+        # the second session stays up and idle well beyond the keep-alive interval, with a little traffic in between
+        ops += [["sleep", rng.choice([31.0, 45.0, 62.0])], ["put", "MAIN", "MID", "1"], ["sleep", rng.choice([29.0, 33.0, 64.0])]]
     else:
         ops += [["sleep", rng.choice([0.0, 0.2, 1.5])]]
     return {"kind": "conn", "device": dev1, "reconnect_device": dev2, "log_size": 0, "threads": [ops], "pre_register": [1], "final_wait": 0}
